@@ -469,8 +469,8 @@ def run(ctx):
     else:
         ctx.mc('MC_Sync', 'MC_Sync_thorough.cfg')
         s2c(ctx, report, ctx.generate('MC_Sync', 'MC_Sync_gen_quick.cfg'), 25000)
-        s2c(ctx, report, ctx.generate('MC_Sync', 'MC_Sync_gen_frames.cfg'), 0)
-        s2c(ctx, report, ctx.generate('MC_Sync', 'MC_Sync_gen_cols.cfg'), 8000)
+        s2c(ctx, report, ctx.generate('MC_Sync', 'MC_Sync_gen_frames.cfg'), 15000)
+        s2c(ctx, report, ctx.generate('MC_Sync', 'MC_Sync_gen_cols.cfg'), 5000)
         s2c(ctx, report, ctx.generate('MC_Sync', 'MC_Sync_gen_thorough.cfg'), 30000)
         ctx.mc('MC_SyncHist', 'MC_SyncHist_thorough.cfg')
         hs = s2c_histories(ctx, ctx.generate('MC_SyncHist', 'MC_SyncHist_gen_quick.cfg'), 0)
